@@ -74,35 +74,36 @@ type FuncCtx struct {
 }
 
 type Exec struct {
-	L            *Loader
-	C            *Contracts
-	counter      int
-	Obls         []*Obligation
-	cur          *FuncCtx
-	Abstractions map[string]bool
-	Trusted      map[string]bool
-	paths        int
-	maxPaths     int
-	tsubstStack  []map[*types.TypeParam]types.Type
-	inlineStack  []string
-	posFset      *token.FileSet
-	globals      map[types.Object]Value
-	errIDs       map[types.Object]int64
-	strLits      map[string]int64
-	specDepth    int
-	UsedSpecs    map[string]bool
-	FuncsDone    []string
-	Errors       []string
-	constMaps    map[types.Object]*ConstMap
-	quantN       int
-	tsub         map[*types.TypeParam]types.Type
-	heapEpoch    int
-	mayWriteDepth int
-	iterSources  map[string]iterSource
-	specFuel     int
-	usesLenMemo  map[string]bool
-	recMemo      map[string]bool
-	closureIDs   map[*ClosureRef]int64
+	L                   *Loader
+	C                   *Contracts
+	counter             int
+	Obls                []*Obligation
+	cur                 *FuncCtx
+	Abstractions        map[string]bool
+	Trusted             map[string]bool
+	paths               int
+	maxPaths            int
+	tsubstStack         []map[*types.TypeParam]types.Type
+	inlineStack         []string
+	posFset             *token.FileSet
+	globals             map[types.Object]Value
+	errIDs              map[types.Object]int64
+	strLits             map[string]int64
+	specDepth           int
+	UsedSpecs           map[string]bool
+	FuncsDone           []string
+	Errors              []string
+	constMaps           map[types.Object]*ConstMap
+	quantN              int
+	tsub                map[*types.TypeParam]types.Type
+	heapEpoch           int
+	mayWriteDepth       int
+	iterSources         map[string]iterSource
+	specFuel            int
+	usesLenMemo         map[string]bool
+	recMemo             map[string]bool
+	closureIDs          map[*ClosureRef]int64
+	concreteSolverCalls int
 }
 
 func (x *Exec) fresh(base string) string {
@@ -1137,6 +1138,7 @@ func (x *Exec) binop(fr *Frame, st *State, n ast.Node, op token.Token, va, vb Va
 		switch a := va.(type) {
 		case StrV:
 			eq = x.strEq(a, vb.(StrV))
+			x.linkLiteralEq(st, a, vb.(StrV), eq)
 		case OpaqueV:
 			switch b := vb.(type) {
 			case OpaqueV:
@@ -1434,6 +1436,10 @@ func (x *Exec) sliceExpr(fr *Frame, e *ast.SliceExpr, st *State, k func(*State, 
 
 func (x *Exec) compositeLit(fr *Frame, e *ast.CompositeLit, st *State, k func(*State, Value)) {
 	t := x.typeOf(fr, e)
+	if isTimeTime(t) && len(e.Elts) == 0 {
+		k(st, IntV{IntLit(0)})
+		return
+	}
 	switch u := t.Underlying().(type) {
 	case *types.Struct:
 		sv := x.zeroValue(t).(StructV)
@@ -1713,4 +1719,18 @@ func (x *Exec) closureID(f FuncV) *Term {
 		x.closureIDs[f.Closure] = id
 	}
 	return IntLit(id)
+}
+
+// linkLiteralEq records that content equality with a literal coincides with
+// equality of string identities (strid is "the content as a value").
+func (x *Exec) linkLiteralEq(st *State, a, b StrV, eq *Term) {
+	if eq.IsConst() {
+		return
+	}
+	_, la := strLitOf(a)
+	_, lb := strLitOf(b)
+	if la == lb {
+		return
+	}
+	st.assumeRaw(Eq(eq, Eq(x.strID(st, a), x.strID(st, b))))
 }
